@@ -1076,7 +1076,7 @@ func init() {
 	engine.Register(&engine.Check{
 		ID: "C08",
 		Run: func(r *engine.Run) {
-			r.Bound = "per configuration 1-2 active tunnels (TSS route on a real 2-of-2 signing group / TSS route without a group / IBC route without channel) x 2 signals, soft/hard in {(100,300),(300,300)} bps, interval in {2,4} s (min=2) or 3600 s; every sequence of <= depth events from {Price(signal, token) over per-signal alphabets drawn from {missing,0,100,101,102,103,105,120; available/not-ready}, Fund(feePayer, amount), SubmitDEs(member), Activate/Deactivate, Trigger, Block(dt in {1,2,4})}, modulo the order of independent environment writes inside one block segment; depth 5-7 (quick) / 7-9 (thorough)"
+			r.Bound = "per configuration 1-2 active tunnels (TSS route on a real 2-of-2 signing group / TSS route without a group / IBC route without channel) x 2 signals, soft/hard in {(100,300),(300,300)} bps, interval in {2,4} s (min=2) or 3600 s; every sequence of <= depth events from {Price(signal, token) over per-signal alphabets drawn from {missing,0,100,101,102,103,105,120; available/not-ready}, Fund(feePayer, amount), SubmitDEs(member), Activate/Deactivate, Trigger, Block(dt in {1,2,4})}, modulo the order of independent environment writes inside one block segment; depth 5-6 (quick) / 6-8 (thorough)"
 			r.Assumptions = []string{
 				"prices are environment input written with the feeds keeper while the feeds current-feed list is empty (the feeds end-blocker then leaves Price records alone; no current-feeds update height falls into the explored range)",
 				"TSS route: one real 2-of-2 group (n = t, so every signing consumes one nonce pair of every member); signings created by packets are never signed and do not expire within the explored depth (SigningPeriod 100 blocks)",
